@@ -333,6 +333,24 @@ fn family_special() -> Vec<Case> {
     out.push(Case { family: "name-spaces", defs: vec![d("again", &["l"], "dec cx jnz l")], data: String::new(), code: "start:\nmov cx, 3\nagain:\nagain(again)\n".into() });
     out.push(Case { family: "name-spaces", defs: vec![d("go", &["l"], "jmp l"), d("count", &["l"], "dec cx go(count) inc l")], data: String::new(), code: "start:\ncount(ax)\ncount:\nhlt\n".into() });
     out.push(Case { family: "name-spaces", defs: vec![d("f", &["p"], "call p")], data: String::new(), code: "def f {\ninc ax\n}\nstart:\nf(f)\n".into() });
+    // the same macro used twice with argument lists that read the same when run together (1,12 / 11,2):
+    // every use is expanded from its own arguments
+    {
+        let vals = ["1", "11", "12", "2", "112", "21"];
+        for a in vals {
+            for b2 in vals {
+                for c2 in vals {
+                    for e in vals {
+                        if (a, b2) == (c2, e) || format!("{}{}", a, b2) != format!("{}{}", c2, e) {
+                            continue;
+                        }
+                        out.push(Case { family: "colliding-arguments", defs: vec![d("setpos", &["r", "c"], "mov dh, r mov dl, c")], data: String::new(), code: format!("start:\nsetpos({}, {})\nsetpos({}, {})\n", a, b2, c2, e) });
+                    }
+                }
+            }
+        }
+        out.push(Case { family: "colliding-arguments", defs: vec![d("pr", &["x", "y"], "mov x, y")], data: String::new(), code: "start:\npr(al, 1)\npr(a, l1)\n".into() });
+    }
     // no-parameter macros
     out.push(Case { family: "no-param", defs: vec![d("n", &["_"], "stc cmc")], data: String::new(), code: "start:\nn(_)\nn(_)\n".into() });
     // unknown macro at top level and inside a body
